@@ -215,6 +215,30 @@ pub fn run(ctx: &Ctx, with_reader_side: bool) -> Report {
         models.lock().unwrap().push((idx, line));
         if with_reader_side {
             reader_side(&case, t, &shp, &shx, nshapes, &written, rep);
+            // the pair on disk through the path-based constructor: same count, same shapes
+            let by_path_reader = panicmon::catch(|| -> Result<(usize, Vec<D>), Error> {
+                let mut rd = ShapeReader::from_path(&shp_path)?;
+                let n = rd.shape_count()?;
+                let mut v = vec![];
+                for s in rd.iter_shapes() {
+                    v.push(s?.d());
+                }
+                for i in (0..n).rev() {
+                    match rd.read_nth_shape(i) {
+                        Some(Ok(s)) if v.get(i) == Some(&s.d()) => {}
+                        _ => return Err(Error::InvalidShapeRecordSize),
+                    }
+                }
+                Ok((n, v))
+            });
+            rep.count("pairs_read_through_from_path", 1);
+            let want: Vec<D> = written.iter().map(|d| d.expected_after_roundtrip()).collect();
+            match by_path_reader {
+                Ok(Ok((n, v))) if n == nshapes && v.len() == nshapes && v.iter().zip(&want).all(|(g, w)| first_diff(g, w).is_none()) => {}
+                Ok(Ok((n, v))) => rep.violation(&format!("reader.from_path/{}", type_name(t)), &case, J::obj(vec![("count", J::UInt(n as u64)), ("items", J::UInt(v.len() as u64)), ("written", J::UInt(nshapes as u64))])),
+                Ok(Err(e)) => rep.violation(&format!("reader.from_path/{}", type_name(t)), &case, J::s(err_class(&e))),
+                Err(p) => rep.violation(&format!("reader.from_path.panic/{}", type_name(t)), &case, J::s(p.class())),
+            }
         }
         rep.sample(|| J::obj(vec![("case", J::s(case.clone())), ("file", J::s(name.clone())), ("shapes", J::UInt(nshapes as u64)), ("shp_bytes", J::UInt(shp.len() as u64)), ("shx_bytes", J::UInt(shx.len() as u64))]));
     });
